@@ -20,19 +20,35 @@ import (
 func VerifH_CnStyleRoundTrip() {
 	nb := symx.Param("nodeBits", 10)
 	symx.Assume(nb >= 8 && nb <= 10)
-	_nodeBits = uint8(nb)
-	_nodeAtLowest = symx.Param("nodeAtLowest", 0) == 1
+	var epoch int64
 	switch symx.Param("epoch", 0) {
 	case 0:
-		_epoch = 1609430400000 // the package default: 2021-01-01 00:00 +08
+		epoch = 1609430400000 // the package default: 2021-01-01 00:00 +08
 	case 1:
-		_epoch = 946684800000 // 2000-01-01 00:00 UTC
+		epoch = 946684800000 // 2000-01-01 00:00 UTC
 	default:
 		symx.Assume(false)
 	}
+	// priorNodeBits != 0: the package is configured through its public Setup, first with another node
+	// width under which the same id is rendered once, then reconfigured to the width under test: nothing
+	// carried over from before the reconfiguration may influence the round trip
+	prior := symx.Param("priorNodeBits", 0)
+	if prior != 0 {
+		symx.Assume(prior >= 8 && prior <= 10 && prior != nb)
+		opts := []Option{UseEpoch(time.UnixMilli(epoch)), UseNodeMode(NodeBitsMode(prior))}
+		if symx.Param("nodeAtLowest", 0) == 1 {
+			opts = append(opts, NodeAtLowest())
+		}
+		Setup(opts...)
+		symx.Assert(_epoch == epoch && _nodeBits == uint8(prior), "Setup applied")
+	} else {
+		_nodeBits = uint8(nb)
+		_nodeAtLowest = symx.Param("nodeAtLowest", 0) == 1
+		_epoch = epoch
+	}
 	// Asia/Shanghai has been a fixed UTC+8 zone since 1991; the tz database is not read
 	timeLoc = time.FixedZone("CST", 8*3600)
-	timeShift := _nodeBits + StepBits
+	timeShift := uint8(nb) + StepBits
 	var timeMax int64 = (1 << (63 - timeShift)) - 1
 	span := int64(symx.Param("span", 1024))
 	symx.Assume(span > 0 && span <= 1<<16 && span&(span-1) == 0)
@@ -71,6 +87,12 @@ func VerifH_CnStyleRoundTrip() {
 	symx.Assume(leftBits <= uint(timeShift) && leftHi>>(uint(timeShift)-leftBits) == 0)
 	left := leftHi<<leftBits | int64(symx.Uint32("left")&uint32(1<<leftBits-1))
 	id := tf<<timeShift | left
+	if prior != 0 {
+		before := CnStyle(id)
+		symx.Assert(len(before) == TimeStrLen, "the date form has 24 characters (under the earlier configuration)")
+		Setup(UseNodeMode(NodeBitsMode(nb)))
+		symx.Assert(_epoch == epoch && _nodeBits == uint8(nb), "Setup applied")
+	}
 	s := CnStyle(id)
 	symx.Assert(len(s) == TimeStrLen, "the date form has 24 characters")
 	back, err := FromChStyle(s)
